@@ -5,6 +5,7 @@ from engine.origin import Origin, strip, core, show, root, walk, nosite, is_cons
 from engine.paths import Exits, must_pass, conditions, switch_atom, witness_path
 from engine.summ import return_origins
 from rules import c01
+from engine import ipe
 
 PROPERTY = "C18"
 EXPLANATION = ("Oracle-table and provenance rules: (stream-file-table) each raw Linux stream type is paired with its source file "
@@ -444,6 +445,101 @@ def rule_sysinfo(ctx):
     ctx.floor(R, "stores into MDRawSystemInfo in write_cpu_information", sum(len(v) for v in fields.values()), 4)
 
 
+def rule_auxv_pairs(ctx, R="C18/auxv-pairs"):
+    """/proc/<pid>/auxv is an array of (key, value) pairs of native words, ended by AT_NULL: the iterator that feeds the key->field
+    map must cut the file into 2*8-byte records, decode word 0 as the key and word 1 as the value with the native width, and stop
+    at key == AT_NULL (0) only."""
+    prog = ctx.prog
+    nb = ctx.body(R, "linux::auxv::reader::ProcfsAuxvIter::new")
+    it = [b for b in prog.bodies if b.short.startswith("<linux::auxv::reader::ProcfsAuxvIter as std::iter::Iterator>::next")]
+    rl = ctx.body(R, "linux::auxv::reader::read_long")
+    if nb is None or rl is None or len(it) != 1:
+        if len(it) != 1:
+            ctx.violated(R, ("anchor", "ProcfsAuxvIter::next"), None, "anchor missing: <ProcfsAuxvIter as Iterator>::next")
+        return
+    b = it[0]
+    o = Origin(b)
+    # record size
+    ok = False
+    for e in return_origins(prog, nb.short) or []:
+        e = strip(e)
+        if e[0] == "agg":
+            f = dict(e[3])
+            ps = core(f.get("pair_size", ("?",)))
+            try:
+                ok = ipe.Eval({}).val(ps)[0] == 16
+            except Exception:
+                ok = False
+            kg = core(f.get("keep_going", ("?",)))
+            ctx.check(is_const(kg) and kg[1] == 1, R, "starts-iterating", nb.where(0), "a fresh iterator yields", "a fresh iterator starts with keep_going = %s" % show(kg))
+    ctx.check(ok, R, "record=2*word", nb.where(0), "records are 2 * 8 bytes", "the record size is not 2 * size_of::<AuxvType>() = 16")
+    # whole record read before decoding: the read loop is left (other than by returning) only when read_bytes < pair_size is false
+    loops = b.loops()
+    rd = [bi for bi, t in b.calls(lambda c: (c.short or "").endswith("io::Read::read") or (c.target or "").endswith("Read>::read"))]
+    ctx.floor(R, "read into the record buffer", len(rd), 1)
+    okl = False
+    for bi in rd:
+        inner = [h for h, body in loops.items() if bi in body]
+        if not inner:
+            continue
+        h = min(inner, key=lambda x: len(loops[x]))
+        exits = [(x, s_, lab) for x in loops[h] for (s_, lab) in b.succ_edges(x) if s_ not in loops[h] and lab != ("unwind",)]
+        good = True
+        n_ok = 0
+        for x, s_, lab in exits:
+            rets = b.reachable_from(s_, unwind=False)
+            if b.term(x)["k"] == "switch":
+                a, _ = switch_atom(b, o, x)
+                a = core(a)
+                if a[0] == "bin" and a[1] == "Lt" and core(a[3])[0] == "field" and core(a[3])[2] == "pair_size" and lab[0] == "sw" and lab[1] == 0:
+                    n_ok += 1
+                    continue
+            # any other exit must not reach the decoding
+            if any(y in rets for y, t in b.calls(lambda c: c.is_("linux::auxv::reader::read_long"))):
+                good = False
+        okl = good and n_ok == 1
+    ctx.check(okl, R, "whole-record", b.where(rd[0]) if rd else b.where(0), "a record is decoded only after all of its bytes were read (short reads are continued)",
+              "a record can be decoded before pair_size bytes were read")
+    # key = first word, value = second word
+    pairs = []
+    for bi, blk in enumerate(b.blocks):
+        for si, st in enumerate(blk["stmts"]):
+            if st["k"] == "assign" and st["r"]["k"] == "agg" and st["r"].get("vname") == "AuxvPair" or (st["k"] == "assign" and st["r"]["k"] == "agg" and norm(st["r"].get("adt") or "").endswith("AuxvPair")):
+                pairs.append((bi, si, strip(o._rvalue(st["r"], (bi, si), 0))))
+    ctx.floor(R, "AuxvPair construction", len(pairs), 1)
+    for bi, si, v in pairs:
+        f = dict(v[3])
+        k, val = strip(f.get("key", ("?",))), strip(f.get("value", ("?",)))
+        okk = k[0] == "call" and k[1].endswith("read_long") and val[0] == "call" and val[1].endswith("read_long") and k[3] != val[3] and b.dominates(k[3][1], val[3][1]) \
+            and nosite(k[2][0]) == nosite(val[2][0])
+        ctx.check(okk, R, "key-then-value", b.where(bi, si), "key = first word, value = second word of the same record", "AuxvPair{key: %s, value: %s}" % (show(k)[:60], show(val)[:60]))
+        # the only stop condition before the pair is yielded: key == 0
+        dnf = conditions(b, bi, origin=o, relevant=lambda a: core(a)[0] == "bin" and core(a)[1] in ("Eq", "Ne") )
+        oks = bool(dnf)
+        for c in dnf or []:
+            for (a, v_) in c:
+                a = core(a)
+                lhs, rhs = strip(a[2]), core(a[3])
+                if not (nosite(lhs) == nosite(k) and is_const(rhs) and rhs[1] == 0 and ((a[1] == "Eq" and v_ == 0) or (a[1] == "Ne" and v_ != 0))):
+                    # the `n == 0` EOF test of the read loop compares the read count, not the key
+                    if lhs[0] == "call" and lhs[1].split("::")[-1] == "read":
+                        continue
+                    oks = False
+        ctx.check(oks, R, "stops-at-AT_NULL-only", b.where(bi, si), "a pair is yielded unless its key is AT_NULL (0)", "pairs are withheld under another condition than key == AT_NULL")
+    # native word decoding
+    ro = Origin(rl)
+    sw = [x for x in range(rl.n) if rl.term(x)["k"] == "switch" and is_const(core(switch_atom(rl, ro, x)[0]))]
+    okw = False
+    if len(sw) == 1:
+        width = core(switch_atom(rl, ro, sw[0])[0])[1]
+        tgt = [s_ for (s_, lab) in rl.succ_edges(sw[0]) if lab[0] == "sw" and lab[1] == width]
+        if width == 8 and tgt:
+            t = rl.term(tgt[0])
+            inst = (t.get("callee") or {}).get("inst") or ""
+            okw = t["k"] == "call" and "read_u64::<byteorder::LittleEndian>" in inst or "read_u64::<byteorder::NativeEndian>" in inst
+    ctx.check(okw, R, "native-word", rl.where(0), "a word is 8 bytes, native (little) endian", "read_long does not decode an 8-byte native-endian word for this target")
+
+
 def run(ctx):
     # link-map names, handle link targets and the OS version string go through the shared string helper (same instance as C16/string)
     from rules import c16
@@ -454,6 +550,7 @@ def run(ctx):
     rule_meminfo(ctx)
     rule_handles(ctx)
     rule_auxv(ctx)
+    rule_auxv_pairs(ctx)
     rule_dso(ctx)
     rule_sysinfo(ctx)
     # the architecture is named also when the CPU details cannot be gathered: it is stored before anything in that step can fail and
